@@ -8,3 +8,11 @@ package parser
 //@   requires p != nil && p.l != nil && lexer.wf(p.l)
 //@   modifies *
 //@   property C08
+
+// Lambda parameter lists may contain nil entries (a parameter that failed to parse, its error already recorded):
+// checking them must not dereference nil.
+//@ func okParamList
+//@   modifies heap
+//@   loop 1 invariant -1 <= rangeindex && rangeindex < len(nodes)
+//@   loop 1 invariant forall(0, rangeindex + 1, func(k int) bool { return nodes[k] != nil })
+//@   property C08
